@@ -84,6 +84,10 @@ class MemReader:
             if self.consecutive_raises > self.SPIN_LIMIT:
                 raise SpinAbort(f"{self.name}: read() raised {self.SPIN_LIMIT} times in a row without the reader ever suspending")
             raise self.err
+        # EOF: a reader that keeps calling read() on an ended stream without ever suspending is a busy loop too
+        self.consecutive_raises += 1
+        if self.consecutive_raises > self.SPIN_LIMIT:
+            raise SpinAbort(f"{self.name}: read() returned EOF {self.SPIN_LIMIT} times in a row without the reader ever suspending")
         return b""
 
 
